@@ -15,14 +15,12 @@ def register(w):
         "visit_raises": {"ValueError": "any"},
         "generic_requires": ["wf(node)"],
         # induction hypothesis of the visitor: results are well-formed nodes of the same syntactic
-        # category.  Proved as postcondition of visit_ListComp / visit_GeneratorExp below; ASSUMED
-        # for visit_Call (dataclass lowering, Python reflection) and for generic_visit of the
-        # remaining classes (follows from the grammar once the children satisfy it).
+        # category.  Proved as postcondition of visit_ListComp / visit_GeneratorExp / visit_Call
+        # below; ASSUMED for generic_visit of the remaining classes (follows from the grammar once
+        # the children satisfy it).
         "visit_ensures": ["wf(result)", "implies(is_expr(node), is_expr(result))"],
         "generic_ensures": ["wf(result)"],
-        "assumes": ["visit_Call (dataclass / named-tuple constructor -> dict, uses Python reflection) "
-                    "returns a well-formed expression: not verified, carried by engine B",
-                    "generic_visit of a well-formed node whose children are replaced by well-formed "
+        "assumes": ["generic_visit of a well-formed node whose children are replaced by well-formed "
                     "nodes of the same syntactic category is well-formed (grammar)"],
         "properties": ["C06"],
     })
@@ -69,6 +67,79 @@ def register(w):
         "properties": ["C06"],
     })
     C.register(w, {
+        "key": f"{K}.visit_Call",
+        "self": K,
+        "params": {"node": "py"},
+        "requires": ["isinstance(node, ast.Call)", "wf(node)"],
+        "raises": {"ValueError": "any"},
+        "ensures": ["same(result, lower_sugar(node))", "wf(result)", "is_expr(result)"],
+        "lemma_instances": [],
+        "comps": {0: {"invariant": ["same(_out, param_names(_done))", "all_params(_rest)"],
+                      "step_hints": ["lem_pnames_snoc(_done, head(_rest))"]},
+                  1: {"invariant": ["same(_out, _done)"], "step_hints": []}},
+        "call_hints": {"convert_call_to_dict": [
+            "lem_kwl_ok(a.keywords)", "lem_pnames_str(params_of(a.func.value))"]},
+        "assumes": ["inspect.signature(cls).parameters of a data class: its fields in declaration "
+                    "order (library model: a list of Param records named by strings); the `_fields` "
+                    "of a named-tuple class is a tuple of strings (library fact)"],
+        "modifies": ["*"],
+        "properties": ["C06"],
+    })
+    # data class / named tuple constructor -> dictionary: keys are the field names bound as Python
+    # binds positional and keyword arguments (declaration order), malformed calls are refused
+    C.register(w, {
+        "key": f"{K}.convert_call_to_dict",
+        "self": K,
+        "params": {"a": "py", "node": "py", "sig_arg_names": "list"},
+        "requires": ["isinstance(a, ast.Call)", "wf(a)", "isinstance(a.func, ast.Constant)",
+                     "all_str(sig_arg_names)", "wf_kwlist(a.keywords)",
+                     "kws_ok(a.keywords)"],
+        "ghost": {"R": "rev(a.keywords)", "A0": "a.args", "NP": "len(a.args)",
+                  "KEYS": "concat(take(sig_arg_names, len(a.args)), "
+                          "sel_names(drop(sig_arg_names, len(a.args)), rev(a.keywords)))"},
+        "raises": {"ValueError": "len(sig_arg_names) < len(A0) + len(a.keywords) or "
+                                 "bad_kw(kw_args(R), sig_arg_names, NP)"},
+        "raises_iff": {"ValueError": "len(sig_arg_names) < len(A0) + len(a.keywords) or "
+                                     "bad_kw(kw_args(R), sig_arg_names, NP)"},
+        "ensures": ["same(result, ast.Dict(consts(KEYS), "
+                    "concat(A0, sel_vals(drop(sig_arg_names, NP), R))))",
+                    "wf(result)", "is_expr(result)"],
+        "lemma_instances": ["lem_allkw_rev(a.keywords, [])", "lem_kdict(R)", "lem_kkeys(R)",
+                            "lem_wfk_rev(a.keywords, [])",
+                            "lem_selvals_wf(drop(sig_arg_names, NP), R)",
+                            "lem_wfe_cat(A0, sel_vals(drop(sig_arg_names, NP), R))",
+                            "lem_all_str_take(sig_arg_names, NP)",
+                            "lem_selnames_str(drop(sig_arg_names, NP), R)",
+                            "lem_all_str_cat(take(sig_arg_names, NP), "
+                            "sel_names(drop(sig_arg_names, NP), R))",
+                            "lem_consts_wf(KEYS)",
+                            "lem_all_str_drop(sig_arg_names, NP)",
+                            "lem_consts_cat(take(sig_arg_names, NP), "
+                            "sel_names(drop(sig_arg_names, NP), R))"],
+        "dictcomps": {0: {"invariant": ["same(_out, kwdict_rev(rev(_done)))", "kws_ok(_rest)"],
+                          "hints": ["lem_kdict(rev(_done))"],
+                          "step_hints": ["lem_rev_snoc(_done, head(_rest), [])"]}},
+        "comps": {0: {"invariant": ["same(_out, consts(_done))"],
+                      "step_hints": ["lem_consts_snoc(_done, head(_rest))"]}},
+        "loops": {
+            0: {"invariant": [
+                "same(arg_values, concat(A0, sel_vals(_done, R)))",
+                "same(arg_names, concat(consts(take(sig_arg_names, NP)), consts(sel_names(_done, R))))",
+                "all_str(_rest)"],
+                "hints": ["lem_kd(R, head(_rest))"],
+                "step_hints": ["lem_sel_names_snoc(_done, head(_rest), R)",
+                               "lem_sel_vals_snoc(_done, head(_rest), R)",
+                               "lem_consts_snoc(sel_names(_done, R), head(_rest))",
+                               "lem_cat_assoc(A0, sel_vals(_done, R), [kwp_value(R, head(_rest))])",
+                               "lem_cat_assoc(consts(take(sig_arg_names, NP)), "
+                               "consts(sel_names(_done, R)), [ast.Constant(head(_rest))])"]},
+            1: {"invariant": ["not bad_kw(_done, sig_arg_names, NP)"],
+                "hints": ["lem_bad_kw_cat(_done, _rest, sig_arg_names, NP)"],
+                "step_hints": ["lem_bad_kw_cat(_done, [head(_rest)], sig_arg_names, NP)"]}},
+        "modifies": ["*"],
+        "properties": ["C06"],
+    })
+    C.register(w, {
         "key": f"{F}::resolve_syntatic_sugar",
         "params": {"a": "py"},
         "requires": ["is_node(a)", "wf(a)"],
@@ -85,6 +156,14 @@ _reg = register
 def register(w):
     _reg(w)
     from pyvc.lemmas import register_lemma
+    for nm, kw_ in (("consts_wf", {}), ("kwval_wf", {}), ("selvals_wf", {"hints": ["lem_kwval_wf(rl, head(ns))"]}), ("wfe_cat", {}),
+                    ("wfk_rev", {"ih_cons_head": ["acc"]}),
+                    ("all_str_take", {"ih_pred": "lem_all_str_take_ih"}), ("all_str_cat", {}),
+                    ("selnames_str", {}), ("pnames_str", {}), ("pnames_snoc", {}), ("kwl_ok", {}), ("kd", {}), ("cat_assoc", {}), ("kdict", {}), ("kkeys", {}), ("all_str_drop", {"ih_pred": "lem_all_str_drop_ih"}), ("sel_names_snoc", {}), ("sel_vals_snoc", {}), ("consts_snoc", {}),
+                    ("consts_cat", {}), ("bad_kw_cat", {}),
+                    ("allkw_rev", {"ih_cons_head": ["acc"]})):
+        register_lemma(w, dict({"name": f"dc_{nm}", "pred": f"lem_{nm}", "induct": "list",
+                                "fuel": 4, "properties": ["C06"]}, **kw_))
     register_lemma(w, {"name": "gens_ok_concat", "pred": "lem_gok", "induct": "list",
                        "fuel": 4, "properties": ["C06"]})
     register_lemma(w, {"name": "step_wf", "pred": "lem_step_wf", "induct": "list",
